@@ -819,14 +819,32 @@ def shell_paths(ctx, ecases, emodel, mism, specv):
     ecases = list(ecases) + [("0", "((t)) + (3<<b)", {"b": "2"}, "fixed-shell")]
     emodel = list(emodel) + ctx.model("c07_eval", [enc_eval(ecases[-1])])
     pick.append(len(ecases) - 1)
+    # the other contexts in which arithmetic is evaluated: substring offsets and array subscripts; the expression is
+    # wrapped so that its value selects one character / one element, and the model evaluates the wrapped expression
+    wrapped = []
+    for i in list(pick):
+        nu, s, env, kind = ecases[i]
+        if kind == "fixed-shell" or "\n" in s or rng.random() < 0.6:
+            continue
+        mode = rng.choice(["substr", "index"])
+        w = "((%s)%%10+10)%%10" % s if mode == "substr" else "((%s)%%7+7)%%7" % s
+        ecases.append((nu, w, env, "wrapped-" + mode))
+        wrapped.append(len(ecases) - 1)
+    if wrapped:
+        emodel = emodel + ctx.model("c07_eval", [enc_eval(ecases[i]) for i in wrapped])
+        pick = pick + [i for i in wrapped if core.dec_line(emodel[i])[:1] == ["ok"]]
     scripts, meta = [], []
     for i in pick:
         nu, s, env, kind = ecases[i]
         names = obs_names(env)
-        mode = "cmd" if kind == "fixed-shell" else rng.choice(["dollar", "cmd", "let"])
+        mode = "cmd" if kind == "fixed-shell" else kind[8:] if kind.startswith("wrapped-") else rng.choice(["dollar", "cmd", "let"])
         pre = "".join("%s=%s\n" % (n, shquote(v)) for n, v in sorted(env.items()))
         if mode == "dollar":
             body = "echo R=$(( %s ))\necho S=$?\n" % s
+        elif mode == "substr":
+            body = "s_=0123456789\necho R=${s_:%s:1}\necho S=$?\n" % s
+        elif mode == "index":
+            body = "d_=(0 1 2 3 4 5 6)\necho R=${d_[%s]}\necho S=$?\n" % s
         elif mode == "cmd":
             body = "(( %s ))\necho S=$?\n" % s
         else:
@@ -835,8 +853,20 @@ def shell_paths(ctx, ecases, emodel, mism, specv):
         scripts.append(["s", pre + body + post, "noenv"])
         meta.append((i, mode))
     outs = ctx.impl("sh", scripts)
-    stats = {"cases": len(scripts), "agree": 0}
+    stats = {"cases": len(scripts), "agree": 0, "by_mode": {}}
+    # fixed whole-script probes (expected output from bash 5.2)
+    fixed = [("x=5; c=(); c[(x*3)%7]=1; echo \"I=${!c[@]}\"\n", "I=1", "KF-C07-subscript-assign-parens")]
+    for (scr, want, kid), line in zip(fixed, ctx.impl("sh", [["s", f[0], "noenv"] for f in fixed])):
+        parts = line.split(" ")
+        got = core.unhx(parts[1]).decode("utf-8", "replace") if len(parts) >= 3 else line
+        stats["cases"] += 1
+        if want in got.split("\n"):
+            stats["agree"] += 1
+        else:
+            err = core.unhx(parts[2]).decode("utf-8", "replace") if len(parts) >= 3 else ""
+            specv.append({"input": {"script": scr}, "why": "expected %r, got %r %r" % (want, got[:100], err[-120:]), "known": kid})
     for (i, mode), line, script in zip(meta, outs, scripts):
+        stats["by_mode"][mode] = stats["by_mode"].get(mode, 0) + 1
         mf = core.dec_line(emodel[i])
         parts = line.split(" ")
         if len(parts) < 3 or line.startswith("PANIC"):
@@ -856,7 +886,7 @@ def shell_paths(ctx, ecases, emodel, mism, specv):
         good = mS is not None and mV is not None
         if good and mf[0] == "ok":
             val = int(mf[1])
-            if mode == "dollar":
+            if mode in ("dollar", "substr", "index"):
                 good = mR is not None and mR.group(1) == mf[1] and mS.group(1) == "0"
             else:
                 good = mS.group(1) == ("0" if val != 0 else "1")
